@@ -153,11 +153,25 @@ func runC16(c *Ctx) {
 				if cerr != nil || pan {
 					continue
 				}
+				// an accepted call is accepted wherever an expression may stand (right-hand operand, function
+				// argument, parentheses, indexer), under the same options
+				for _, wrap := range []string{"(1 = 1) and (%s).exists()", "{} = %s", "iif(true, %s)", "(%s)", "Patient.name.where((%s).exists())", "1 + (%s).count()", "Patient.name[(%s).count()]"} {
+					wsrc := fmt.Sprintf(wrap, src)
+					_, werr := fhirpath.Compile(wsrc, copts...)
+					c.Law(werr == nil, "C16/position-dependent", "a call Compile accepts is accepted in every expression position", wsrc+" (experimental functions "+tag+")", fmt.Sprint(werr))
+				}
 				// accepted: evaluation must never fail with an arity complaint
 				o := safeEval(func() (system.Collection, error) { return e.Evaluate(input) })
 				c.Law(!(o.Err != nil && errors.Is(o.Err, impl.ErrWrongArity)), "C16/arity-complaint-after-accept",
 					"an accepted call never fails with an arity complaint", src, fmt.Sprint(o.Err))
 				if strings.HasSuffix(out, ":unimplemented") {
+					// also on an empty input collection: the explicit error, not a silent empty result
+					esrc := "{}." + name + "(" + strings.Join(args, ", ") + ")"
+					if ee, eerr := fhirpath.Compile(esrc, copts...); eerr == nil {
+						eo := safeEval(func() (system.Collection, error) { return ee.Evaluate(input) })
+						c.Law(eo.Err != nil && strings.Contains(eo.Err.Error(), "not yet implemented"), "C16/unimplemented-not-explicit",
+							"a not-implemented function fails with the explicit not-implemented error", esrc, fmt.Sprintf("%v / %v", eo.Coll, eo.Err))
+					}
 					c.Law(o.Err != nil && strings.Contains(o.Err.Error(), "not yet implemented"), "C16/unimplemented-not-explicit",
 						"a not-implemented function fails with the explicit not-implemented error", src, fmt.Sprintf("%v / %v", o.Coll, o.Err))
 				}
